@@ -10,7 +10,8 @@ for d in sorted(os.listdir(ROOT)):
         continue
     j = json.load(open(m))
     det = j.get("detection", {})
-    rows.append((d, j.get("property", "?"), j.get("summary", "").replace("\n", " ")[:160], j.get("needs", "").replace("\n", " ")[:120],
+    flat = lambda x: (" ".join(map(str, x)) if isinstance(x, list) else str(x)).replace("\n", " ")
+    rows.append((d, j.get("property", "?"), flat(j.get("summary", ""))[:160], flat(j.get("needs", ""))[:120],
                  det.get("check", "?"), det.get("result", "?"), det.get("classes", "")))
 with open(os.path.join(ROOT, "INDEX.md"), "w") as f:
     f.write("# Seeded property-breaking changes\n\n")
